@@ -454,7 +454,17 @@ func buildInsertion(in Insertion, lastCC map[uint16]uint8) []byte {
 		if r.Bool() {
 			a.PCR = genClock(r)
 		}
-		p := &refts.Pkt{PID: in.PID, AFC: 2, CC: lastCC[in.PID], AF: refts.StuffAF(a, 184)}
+		cc := lastCC[in.PID]
+		// an adaptation-only packet carries no unit data whatever its flags: it may announce a
+		// discontinuity, and a careless remultiplexer may have stamped any counter on it
+		switch r.Pick(3, 1, 1) {
+		case 1:
+			a.Disc = true
+		case 2:
+			cc = uint8(r.Intn(16))
+			a.Disc = r.Chance(1, 3)
+		}
+		p := &refts.Pkt{PID: in.PID, AFC: 2, CC: cc, AF: refts.StuffAF(a, 184)}
 		raw, err := refts.EncodePacket(p)
 		if err != nil {
 			return refts.NullPacket(0)
